@@ -281,7 +281,7 @@ Variable C : Type.
 Variable cget : C -> N -> list ref -> option ref.
 Variable cadd : C -> N -> list ref -> ref -> C.
 Hypothesis Hlossy : lossy cget cadd.
-Variable Sg : N -> option (list ref).
+Variable Sg : N -> option (list (nat * ref)).
 
 Notation QOK := (QCacheOK cget Sg).
 Notation qres := (qresult_ok cget Sg).
